@@ -5,6 +5,11 @@ HERE = os.path.dirname(os.path.dirname(os.path.abspath(__file__)))
 
 # id -> (technique, level text, level note, design ref)
 CHECKS = {
+ "C20": (
+  "hypothesis-generated haplotype VCF text + generated assemble/call/call-exact pipelines; differential against an independent per-site projection, strict parser and pysam",
+  "Exploration: generated haplotype VCFs (ALT-less records, SNVs monomorphic among the listed haplotypes, empty SNVPOS, '.' alleles, mixed ploidy, with/without ACP/AFP/SNVDP, filtered records with missing values) and real pipeline outputs: atomize must exit cleanly and emit at most one line per SNVPOS with REF/ALT by first appearance (ALT '.' or omission for monomorphic sites), phased GT = projection of the haplotype GT, PS = record POS, AC/ACP/DS = haplotype-level counts marginalised to the site and normalised to ploidy, DP from SNVDP; output passes the strict parser (no literal None/nan) and pysam.",
+  "ACP/DS within 0.0015 (3-decimal inputs and outputs); INFO ACP compared only when every sample has ACP or AFP.",
+  "DESIGN.md §4 C20"),
  "C16": (
   "hypothesis PBT on haplotype records written as VCF text with a decimal-exact oracle (thresholds drawn equal to record values, all operators/spellings, invalid strings), plus generated CLI pipelines with rewritten INFO/AFP vectors (zeros, all-zero) through call, call-exact, call-pedigree",
   "Exploration: generated records with R/A Float/Integer INFO fields: ALT after filtering is exactly the passing ALTs in order, a failing reference is kept and masked, frequencies are the named values normalised over retained alleles (masked ref 0, all-zero -> NaN), wrong-length tags and invalid filter strings raise ValueError; at CLI level ALT/REFMASKED/AFPRIOR of the three programs match the decimal oracle, masked/zero-prior alleles never appear in a GT and have zero AFP/ACP/AOP/GP, and records without a usable allele are emitted with NOA/AF0 and missing calls instead of aborting.",
